@@ -6,6 +6,7 @@ import (
 	"github.com/hneemann/parser2/funcGen"
 	"github.com/hneemann/parser2/listMap"
 	"github.com/hneemann/parser2/value"
+	"github.com/hneemann/parser2/value/export"
 	"math"
 	"sort"
 	"strings"
@@ -22,6 +23,52 @@ type Tree struct {
 	Items []*Tree
 	Keys  []string
 	Repr  string
+	Wrap  []TreeWrap `json:",omitempty"` // export.Format / export.Link wrappers around the value, outermost first
+}
+
+// TreeWrap is one style/link wrapper (value/export Format, Link) around a value of the tree
+type TreeWrap struct {
+	Kind    string // format | link
+	Style   string // format: nil | str | map | closure
+	Cell    bool
+	ColSpan int
+	Link    string
+}
+
+func (w TreeWrap) apply(v value.Value) value.Value {
+	if w.Kind == "link" {
+		return export.Link{Link: w.Link, Value: v}
+	}
+	f := export.Format{Value: v, Cell: w.Cell, ColSpan: w.ColSpan}
+	switch w.Style {
+	case "str":
+		f.Format = value.String("color:red")
+	case "map":
+		f.Format = value.NewMap(listMap.New[value.Value](1).Append("color", value.String("red")))
+	case "closure":
+		f.Format = mustEval("x->x", nil)
+	}
+	return f
+}
+
+// unwrapBuilt removes the wrappers of t from the value Build returned
+func (t *Tree) unwrapBuilt(built value.Value) value.Value {
+	for _, w := range t.Wrap {
+		if w.Kind == "link" {
+			built = built.(export.Link).Value
+		} else {
+			built = built.(export.Format).Value
+		}
+	}
+	return built
+}
+
+func (t *Tree) Build() value.Value {
+	v := t.buildBare()
+	for i := len(t.Wrap) - 1; i >= 0; i-- {
+		v = t.Wrap[i].apply(v)
+	}
+	return v
 }
 
 type treeAlias Tree
@@ -77,7 +124,7 @@ func mustEval(exp string, names []string, args ...value.Value) value.Value {
 var listReprs = []string{"eager", "lazy-map", "lazy-accept", "append", "concat"}
 var mapReprs = []string{"listmap", "real", "put", "merge", "replace", "eval", "map-method", "funcmap", "funcmap-absent", "tomap"}
 
-func (t *Tree) Build() value.Value {
+func (t *Tree) buildBare() value.Value {
 	switch t.Kind {
 	case "int":
 		return value.Int(t.I)
@@ -197,6 +244,15 @@ func scalarString(v value.Value) string {
 
 // Coq term of type Exp.Json.xv; map entries in the iteration order of the built value
 func (t *Tree) CoqXV(built value.Value) string {
+	if len(t.Wrap) > 0 {
+		bare := *t
+		bare.Wrap = nil
+		term := bare.CoqXV(t.unwrapBuilt(built))
+		for i := len(t.Wrap) - 1; i >= 0; i-- {
+			term = "XW " + CoqBool(t.Wrap[i].Kind != "link") + " (" + term + ")"
+		}
+		return term
+	}
 	switch t.Kind {
 	case "list":
 		l := built.(*value.List)
@@ -226,6 +282,18 @@ func (t *Tree) CoqXV(built value.Value) string {
 }
 
 func (t *Tree) Human() any {
+	if len(t.Wrap) > 0 {
+		bare := *t
+		bare.Wrap = nil
+		ws := make([]string, len(t.Wrap))
+		for i, w := range t.Wrap {
+			ws[i] = w.Kind
+			if w.Kind == "format" {
+				ws[i] = fmt.Sprintf("format(%s,cell=%v,colspan=%d)", w.Style, w.Cell, w.ColSpan)
+			}
+		}
+		return map[string]any{"#wrap": ws, "value": bare.Human()}
+	}
 	switch t.Kind {
 	case "int":
 		return t.I
